@@ -63,7 +63,8 @@ theorem latShoot_acc_sound (e : Ens) (old : List Int) (ld : Bool) (idx : Nat) (x
       ∧ pre.length + 1 + post.length ≤ maxlenOf e old.length ld xi
       ∧ crossMid e o.trial = true
       ∧ cb.take pre.length = coinsOf x pre ∧ cf.take post.length = coinsOf x post
-      ∧ o.status = .ACC ∧ o.genNb = pre.length ∧ o.usedB = pre.length ∧ o.usedF = post.length := by
+      ∧ o.status = .ACC ∧ o.genNb = pre.length ∧ o.usedB = pre.length ∧ o.usedF = post.length
+      ∧ o.maxlen = maxlenOf e old.length ld xi ∧ (ld = true ∨ 0 < xi) := by
   unfold latShoot at h
   split at h
   · cases h
@@ -78,8 +79,10 @@ theorem latShoot_acc_sound (e : Ens) (old : List Int) (ld : Bool) (idx : Nat) (x
   rename_i hin
   split at h
   · cases h
+  rename_i hxi1
   split at h
   · cases h
+  rename_i hxi2
   simp only at h
   split at h
   · cases h
@@ -122,9 +125,16 @@ theorem latShoot_acc_sound (e : Ens) (old : List Int) (ld : Bool) (idx : Nat) (x
     | nil => simp at hp1
     | cons y t => simpa [List.getLast?_cons_cons] using hlast
   refine ⟨x, last, pre, post, hx, not_not.1 hidx, hin', hpre, hlast', not_not.1 hl0, hpost, htake, hfit, ?_, htb, htf,
-    rfl, by simp, rfl, rfl⟩
-  simp only at hcross ⊢
-  cases hc : crossMid e (List.take e.maxlength ((x :: pre).reverse ++ (x :: post).tail)) <;> simp_all
+    rfl, by simp, rfl, rfl, rfl, ?_⟩
+  · simp only at hcross ⊢
+    cases hc : crossMid e (List.take e.maxlength ((x :: pre).reverse ++ (x :: post).tail)) <;> simp_all
+  · cases ld with
+    | true => exact Or.inl rfl
+    | false =>
+      right
+      have h1 : ¬ xi < 0 := fun hh => hxi1 ⟨rfl, hh⟩
+      have h2 : ¬ xi = 0 := fun hh => hxi2 ⟨rfl, hh⟩
+      exact lt_of_le_of_ne (not_lt.1 h1) (Ne.symm h2)
 
 /-- **The length rule as an inequality in ξ.**  `L_new ≤ min(int((L_old−2)/ξ) + 2, maxlength)` holds iff the new path
     fits `maxlength` and ξ·(L_new − 2) ≤ L_old − 2, i.e. ξ ≤ n_old/n_new: over ξ ~ U[0,1) the move keeps a completed
